@@ -362,6 +362,11 @@ def expr_contexts(arg: dict) -> list[dict]:
             body = f"val := {text}\n.dl val\n"
         elif ctx == "macro":
             body = f".macro mm(p) {{\n.dl p\n}}\nmm({text})\n"
+        elif ctx == "macro2":
+            # the expression is the SECOND argument; the first parameter is named like an identifier of the call site
+            import re as _re
+            first = next((n for n in arg["env"] if _re.search(r"(?<![A-Za-z0-9_.])" + _re.escape(n) + r"(?![A-Za-z0-9_.])", text)), "x")
+            body = f".macro mm2({first}, p) {{\n.dl p\n}}\nmm2(0x77, {text})\n"
         elif ctx == "if":
             body = f".if {text} {{\n.db 1\n}} else {{\n.db 0\n}}\n"
         elif ctx == "for":
@@ -797,8 +802,12 @@ def run_entry(arg: dict) -> dict:
                 res["calls"] = [[a, list(b)] for a, b in w.calls]
                 res["labels"] = [[n, v] for n, v in p.resolver.get_all_labels()] if r is None else []
             elif entry == "assemble":
+                if arg.get("via_rom_type"):
+                    # the mapping chosen on the resolver, assemble() called without a mapping argument
+                    p.resolver.rom_type = {"low": RomType.low_rom, "low2": RomType.low_rom_2, "high": RomType.high_rom}[mapping]
                 try:
-                    st = p.assemble(asm, outname, mapping) if arg.get("assemble_takes_mapping") else p.assemble(asm, outname)
+                    st = (p.assemble(asm, outname, mapping) if arg.get("assemble_takes_mapping") and not arg.get("via_rom_type")
+                          else p.assemble(asm, outname))
                 except TypeError:
                     st = p.assemble(asm, outname)
                 res["status"] = st
